@@ -637,6 +637,24 @@ def hasIterateRepeat (env : List (Name × Bool)) : Stmt → Bool
   | .iterate l => (env.lookup l).getD false
   | _ => false
 
+/-- `ITERATE l` occurs where the nearest enclosing construct labelled `l` is a REPEAT whose body's
+code ends with a `ScopeEnd` (the body's last statement is a BEGIN…END block, or an IF/CASE whose
+final branch ends with one). In the first ("once") copy of the body the ITERATE is a *forward*
+`Goto` to the UNTIL test at `loopStart`; the scan of `OpCode_Goto` stops at `Index-2`, so the
+`ScopeEnd` sitting at `loopStart-1` is neither scanned nor executed: when the ITERATE is inside
+that block its scope stays on the stack, when it is in front of it an empty scope does.
+`env` maps the labels in scope to "is a REPEAT whose body ends with a block". -/
+def hasIterateRepeatEndBlock (env : List (Name × Bool)) : Stmt → Bool
+  | .seq a b => hasIterateRepeatEndBlock env a || hasIterateRepeatEndBlock env b
+  | .block l b => hasIterateRepeatEndBlock (match l with | some l => (l, false) :: env | none => env) b
+  | .ite _ t e => hasIterateRepeatEndBlock env t || hasIterateRepeatEndBlock env e
+  | .while l _ b => hasIterateRepeatEndBlock (match l with | some l => (l, false) :: env | none => env) b
+  | .repeat l b _ =>
+    hasIterateRepeatEndBlock (match l with | some l => (l, endsWithBlock b) :: env | none => env) b
+  | .loop l b => hasIterateRepeatEndBlock (match l with | some l => (l, false) :: env | none => env) b
+  | .iterate l => (env.lookup l).getD false
+  | _ => false
+
 /-- No LEAVE / ITERATE at all (the fragment of `compile_correct`). -/
 def jumpFree : Stmt → Bool
   | .seq a b => jumpFree a && jumpFree b
@@ -674,5 +692,51 @@ def staleIterate (s : Stmt) : Bool :=
     | .iterate l => (lb.contains l && !((env.lookup l).getD true), lb)
     | _ => (false, lb)
   (go [] [] s).1
+
+/-- Sub-class of `staleIterate` on which the Impl model does **not** predict the engine: an
+`ITERATE l` compiled against a stale registration of `l` whose registering LOOP/REPEAT lies inside a
+BEGIN…END block that does not enclose the ITERATE. The backward `Goto` then enters a block that has
+been closed; its scan re-pushes an *empty* scope for the block's `ScopeEnd`, so the block's variables
+no longer resolve. The model answers `err 1105` at the first such read. The engine does that only
+when the expression has never been evaluated before: `replaceVariablesInExpr` writes the substituted
+value into the `ColName` node of the op's (shared) AST and returns the node unchanged when the name
+does not resolve, so an unresolved name silently evaluates to the value it had at the previous
+evaluation of that AST node (the two copies of a REPEAT body share their nodes). That per-node cache
+is not part of this model; the harness keeps these cases out of the run-level correspondence
+(payload flag `(norun)`, checked against this predicate by the driver) and evaluates them with its
+direct-interpretation oracle only.
+
+`lb`: labels registered so far with the block path (ids of the enclosing blocks, innermost first)
+of the registering statement, most recent first; `path`: block path of the current statement;
+the `Nat` threaded through numbers the blocks in compile order. -/
+def staleIntoClosedBlock (s : Stmt) : Bool :=
+  let rec go (lb : List (Name × List Nat)) (env : List (Name × Bool)) (path : List Nat) (next : Nat) :
+      Stmt → Bool × List (Name × List Nat) × Nat
+    | .seq a b =>
+      let ra := go lb env path next a
+      let rb := go ra.2.1 env path ra.2.2 b
+      (ra.1 || rb.1, rb.2.1, rb.2.2)
+    | .block l b =>
+      go lb (match l with | some l => (l, false) :: env | none => env) (next :: path) (next + 1) b
+    | .ite _ t e =>
+      let rt := go lb env path next t
+      let re := go rt.2.1 env path rt.2.2 e
+      (rt.1 || re.1, re.2.1, re.2.2)
+    | .while l _ b => go lb (match l with | some l => (l, false) :: env | none => env) path next b
+    | .repeat l b _ =>
+      let r1 := go lb (match l with | some l => (l, false) :: env | none => env) path next b
+      let lb2 := match l with | some l => (l, path) :: r1.2.1 | none => r1.2.1
+      let r2 := go lb2 (match l with | some l => (l, true) :: env | none => env) path r1.2.2 b
+      (r1.1 || r2.1, r2.2.1, r2.2.2)
+    | .loop l b =>
+      let lb1 := match l with | some l => (l, path) :: lb | none => lb
+      go lb1 (match l with | some l => (l, true) :: env | none => env) path next b
+    | .iterate l =>
+      let stale := !((env.lookup l).getD true)
+      ((match lb.lookup l with
+        | some rp => stale && !(rp.isSuffixOf path)
+        | none => false), lb, next)
+    | _ => (false, lb, next)
+  (go [] [] [] 0 s).1
 
 end Gms.ProcLang
